@@ -1,3 +1,4 @@
 #![allow(clippy::type_complexity, clippy::too_many_arguments, dead_code, unused_imports)]
 pub mod cli;
 pub mod engine;
+pub mod fuzz_c08;
